@@ -36,6 +36,7 @@ import (
 	"verif/lib/ev"
 	"verif/lib/oxc"
 	"verif/lib/oxh"
+	"verif/lib/sched"
 )
 
 // follower shapes at election time, relative to the candidate's log
@@ -252,6 +253,8 @@ type node struct {
 	acked   map[string]string
 	nextID  int
 	fails   []fail
+	// explore: the election step runs with schedule exploration switched on (schedule stage)
+	explore bool
 }
 
 func (n *node) failf(key, f string, a ...any) {
@@ -414,12 +417,16 @@ func (n *node) step(op int) bool {
 		}
 		type res struct{ err error }
 		ch := make(chan res, 1)
+		if n.explore {
+			s.Explore(true)
+		}
 		th := s.Go("rpc:BecomeLeader", func() {
 			_, err := n.lc.BecomeLeader(ctx, &proto.BecomeLeaderRequest{Namespace: ns, Shard: shard, Term: n.ackTerm, ReplicationFactor: 3, FollowerMaps: fm})
 			vsched.Send(ch)(res{err})
 		})
 		th.Group = n.grp
 		s.Settle()
+		s.Explore(false)
 		r := vsched.Select(true, vsched.RecvCase(ch))
 		if r.I != 0 {
 			n.failf("become-leader-stuck", "%s with at least one reachable follower never returned", opName(op))
@@ -606,7 +613,10 @@ func trunc(b []byte) string {
 	return string(b)
 }
 
-func body(seq []int, out *outcome) func(s *vsched.Sched) {
+func body(seq []int, out *outcome) func(s *vsched.Sched) { return bodyX(seq, out, false) }
+
+// bodyX: exploreLast runs the last event of seq (an election) under schedule exploration.
+func bodyX(seq []int, out *outcome, exploreLast bool) func(s *vsched.Sched) {
 	return func(s *vsched.Sched) {
 		s.Explore(false)
 		env := oxc.NewEnv(s)
@@ -639,6 +649,7 @@ func body(seq []int, out *outcome) func(s *vsched.Sched) {
 		}
 		out.Applicable = true
 		for i, op := range seq {
+			n.explore = exploreLast && i == len(seq)-1
 			if !n.step(op) {
 				if i == len(seq)-1 {
 					out.Applicable = false
@@ -654,6 +665,54 @@ func body(seq []int, out *outcome) func(s *vsched.Sched) {
 		l := n.entries()
 		out.Sig = fmt.Sprintf("term=%d leading=%v fenced=%v entries=%d", n.ackTerm, n.leading, n.fenced, len(l))
 	}
+}
+
+// SchedScenarios: fixed event sequences whose last event, an election, runs under schedule exploration: the
+// candidate's threads (BecomeLeader, follower cursors, snapshot sender, ack receivers) and the checking
+// followers interleave in every way up to the deviation bound. keep selects the failure keys that count.
+func SchedScenarios(tier string, keep map[string]bool) []sched.Scenario {
+	idx := func(a, b int) int {
+		for i, e := range elections {
+			if e.a == a && e.b == b {
+				return opElect0 + i
+			}
+		}
+		panic("no such election")
+	}
+	type sc struct {
+		name string
+		seq  []int
+	}
+	scs := []sc{
+		// the candidate holds an entry no follower has; one follower is level with the rest of its log, the
+		// other is empty and is restored from a snapshot while the first one acknowledges the tail
+		{"uncommitted-tail-then-election-empty+level", []int{opPutNoQuorum, opNewTerm, idx(shEmpty, shEqual)}},
+		{"election-empty+longer-tail-of-older-term", []int{opNewTerm, idx(shEmpty, shDiverge)}},
+		{"uncommitted-tail-then-election-one-behind+longer-tail", []int{opPutNoQuorum, opNewTerm, idx(shBehind1, shDiverge)}},
+	}
+	dev := 2
+	if tier == "thorough" {
+		dev = 3
+	}
+	var out []sched.Scenario
+	for _, x := range scs {
+		x := x
+		out = append(out, sched.Scenario{Name: x.name, MaxDev: dev, Cfg: vsched.Config{MaxSteps: 400000, MaxTime: int64(10 * time.Minute)},
+			Body: func(s *vsched.Sched) {
+				var o outcome
+				bodyX(x.seq, &o, true)(s)
+				if (!o.Applicable || o.Sig == "") && len(o.Fails) == 0 {
+					s.Fail("harness-setup", "the event sequence is not applicable")
+				}
+				for _, f := range o.Fails {
+					if keep == nil || keep[f.Key] {
+						s.Fail(f.Key, f.Msg)
+					}
+				}
+				s.Data = o.Sig
+			}})
+	}
+	return out
 }
 
 func runSeq(seq []int) outcome {
